@@ -12,7 +12,7 @@ func (p *parker) wait()   { <-p.c }
 
 const RaceEnabled = false
 
-func RaceIORelease()                       {}
-func RaceIOAcquire()                       {}
+func RaceIORelease()                         {}
+func RaceIOAcquire()                         {}
 func RaceWriteRange(p unsafe.Pointer, n int) {}
 func RaceReadRange(p unsafe.Pointer, n int)  {}
